@@ -59,6 +59,7 @@ def run(ctx):
     ctor_total_rule(ctx)
     subtraction_audit(ctx)
     domain_audit(ctx)
+    panic_audit(ctx, "C16.P")
     # records that end in an ambiguous base / are all ambiguous: the k-mer iterator's position discipline
     from . import c01, c07
     c01.run(dep(ctx, "C16", "C01"))
@@ -72,6 +73,7 @@ def run(ctx):
     for fv_ in (fs2_, fm2_):
         if fv_ is not None:
             rule_locked_take(d10_, "C10.L", fv_, 1)
+            rule_spawn_count(d10_, "C10.L", fv_, fv_.path.split("::")[-1])
     if fs2_ is not None:
         c10.s2m_rules(d10_, fs2_)
     if fm2_ is not None:
